@@ -203,8 +203,6 @@ theorem Sat_congr (M : Model) (ρ ρ' : Valuation) (hρ : Admissible M ρ) (th :
   rw [← hsame th.prop (by simp)]
   exact this
 
-/-- the name of the new constant is none of `equals`, `implies`, `all` -/
-def nonLogicalName (name : String) : Bool := name != "equals" && name != "implies" && name != "all"
 
 theorem freshName_of_nonLogical (name : String) (h : nonLogicalName name = true) (T : Ty) :
     freshName name T = true := by
